@@ -146,6 +146,82 @@ def run(ctx):
     ctx.add_exploration('applicationentity.AEBase.copy_context_def_list', copy_case, res2,
                         target='applicationentity.AEBase.copy_context_def_list')
 
+    # ------------------------------------------------------------------ (A') add_scu / add_scp
+    # The lookup clause ("a service can be obtained iff such a context exists") needs the configuration
+    # invariant behind get_scu's two tables: every class a call of add_scu puts into the proposal (the list
+    # it hands to update_context_def_list) is registered in supported_scu with that service, and nothing else
+    # of the registry changes.  update_context_def_list is seen through a recording stub here (its own
+    # contract is (A)).
+    def add_case(p, which, override):
+        label = 'applicationentity.AEBase.%s' % which
+        if which == 'add_scu':
+            label += '[override]' if override else '[service classes]'
+        ob = obl(p, label)
+        cfg = nego.install_cfg(it)
+        calls = []
+
+        def record(it2, args, kw):
+            calls.append((args[1:], dict(kw)))
+        base_cls = aem.attrs['AEBase'] if which == 'add_scu' else aem.attrs['AE']
+        cls = ClassVal('AEUnderTest', [base_cls], {'update_context_def_list': nego.method(record)}, 'harness')
+        ae = Obj(cls)
+        old_svc = Opaque('service registered earlier')
+        pred = cfg['used'] if which == 'add_scu' else cfg['served']
+        reg = DictVal()
+
+        def reg_base(it2, key):
+            k = nego.name_term(it2, key)
+            if it2.p.branch(pred(k)):
+                return True, old_svc
+            return False, None
+        reg.base = reg_base
+        other = DictVal()
+        other.base = lambda it2, key: (_ for _ in ()).throw(Unsupported('the other registry is not to be read'))
+        ae.fields.update({'supported_scu': reg if which == 'add_scu' else other,
+                          'supported_scp': reg if which == 'add_scp' else other})
+        own = SeqVal(p.fresh('service_sop_classes', it.types.sort_of('Seq[str]')), 'str')
+        svc = Obj(ClassVal('ServiceUnderTest', [it.builtins['object']], {}, 'harness'))
+        svc.fields['sop_classes'] = own
+        in_file = p.fresh('service_store_in_file', smt.Bool)
+        svc.fields['store_in_file'] = in_file
+        given = None
+        args = [ae, svc]
+        if override:
+            given = SeqVal(p.fresh('override_sop_classes', it.types.sort_of('Seq[str]')), 'str')
+            args.append(given)
+        try:
+            r = it.call(base_cls.lookup(which)[0], args, {})
+        except Raised as e:
+            return noexc(p, label, e)
+        # the effective list: a non-empty override, else the service's own classes
+        if given is not None and p.branch(z3.Length(given.term) > 0):
+            eff = given
+        else:
+            eff = own
+        ob('chainable', r is ae)
+        ok = len(calls) == 1 and len(calls[0][0]) >= 1 and isinstance(calls[0][0][0], SeqVal)
+        ob('proposal-extended-once', ok)
+        if ok:
+            ob('proposal-extended-by-the-effective-list', calls[0][0][0].term == eff.term)
+        k = p.fresh('some_sop_class', smt.Str)
+        after = ae.fields['supported_' + which[-3:]]
+        found, v = dicts.lookup(it, after, k)
+        member = z3.Contains(eff.term, z3.Unit(k))
+        if p.branch(member):
+            ob('every-proposed-class-is-registered-with-the-service', bool(found) and v is svc)
+        else:
+            ob('rest-of-the-registry-unchanged', (bool(found) and v is old_svc) if p.branch(pred(k)) else (not found))
+        p.outcome = 'normal'
+    for which, override in (('add_scu', False), ('add_scu', True), ('add_scp', False)):
+        lab = 'applicationentity.AEBase.%s' % which
+        if which == 'add_scu':
+            lab += '[override]' if override else '[service classes]'
+        fv, _ = verify.lookup_function(it, 'applicationentity.%s.%s' % ('AEBase' if which == 'add_scu' else 'AE', which))
+        if not override:
+            infos.append(verify.function_info(it, fv))
+        ctx.add_exploration(lab, lambda p, which=which, override=override: add_case(p, which, override), res2,
+                            target='applicationentity.%s.%s' % ('AEBase' if which == 'add_scu' else 'AE', which))
+
     # ------------------------------------------------------------------ (B)+(C) _request
     def request_case(p):
         label = 'asceprovider.AssociationRequester._request'
@@ -273,14 +349,16 @@ def run(ctx):
         return fn
     ctx.replayers['*'] = _replayer('nego.py')
     ctx.native_crosschecks.append(('nego.py', {'obligation': 'asceprovider.AssociationRequester._request#'}, 'request / reply patterns / get_scu'))
+    ctx.native_crosschecks.append(('nego.py', {'obligation': 'applicationentity.AEBase.add_scu#'}, 'add_scu / add_scp registrations'))
     ctx.native_crosschecks.append(('nego.py', {'obligation': 'applicationentity.AEBase.update_context_def_list#'}, 'id allocation (the known finding shows up here)'))
     ctx.assumptions += [
         'the reply is an A-ASSOCIATE-AC in standard item order whose answers all carry ids the requester proposed '
         '(an accepted context that was never proposed makes _request raise KeyError; the statement speaks of '
         'the contexts "among those it proposed")',
         'AE.supported_ts is iterated in one fixed order (a frozenset that is not modified)',
-        'add_scu / add_scp are thin wrappers (dict.update + update_context_def_list); they are exercised by the '
-        'bounded native audit only (replay/nego.py)',
+        'add_scu / add_scp: verified with update_context_def_list behind a recording stub (its contract is (A)); the '
+        'registry is an abstractly given dictionary, the service class lists are symbolic sequences of strings; '
+        'engine rule: {x: V for x in xs} over a symbolic sequence = dictionary with membership Contains(xs, <k>)',
         'engine rules used: dictionary comprehension over zip(sequence, count(a, s)) = table with keys a + s*j; '
         'dict.update with such a table = one layer of the update chain; a list built by chain() around a '
         'generator expression over a symbolic sequence = pointwise-defined segment (map_instance)',
